@@ -42,6 +42,7 @@ type vfsRepo struct {
 	subs         []vfsSub
 	docs         []*vfsDoc // all documents of the repository (over all its shards)
 	ftomb        map[string]struct{}
+	shared       bool // the name is also the name of a repository of another tenant (vfsGenOpts.dupnames)
 }
 type vfsShard struct {
 	key   string
@@ -79,6 +80,7 @@ type vfsGenOpts struct {
 	subrepos   bool
 	branchy    bool // varied branch sets incl. a branch literally named HEAD
 	split      bool // split repositories over several simple shards
+	dupnames   bool // repository names are unique per tenant only: some repositories share their name across tenants
 }
 
 func vfsGenRepo(r *vfRand, gi int, o vfsGenOpts) *vfsRepo {
@@ -227,6 +229,30 @@ func vfsGenWorld(t testing.TB, r *vfRand, o vfsGenOpts, tag string) *vfsWorld {
 	for i := 0; i < nrepos; i++ {
 		w.repos = append(w.repos, vfsGenRepo(r, base+i, o))
 	}
+	if o.dupnames {
+		for i := 1; i < len(w.repos); i++ {
+			if !r.Chance(40) {
+				continue
+			}
+			rp, other := w.repos[i], w.repos[r.Intn(i)]
+			clash := rp.shared || other.tenant == rp.tenant
+			for _, x := range w.repos {
+				if x.name == other.name && x.tenant == rp.tenant {
+					clash = true
+				}
+			}
+			if !clash {
+				if !other.shared {
+					other.name, other.shared = fmt.Sprintf("shared/app%d", other.gi), true
+				}
+				rp.name, rp.shared = other.name, true
+				// RepoURLs / LineFragments are keyed by NAME and merged in the order in which shard results arrive:
+				// a caller who sees both repositories (system context) gets either template. Same-named repositories
+				// therefore carry the same templates here (the shard-level harness in package index keeps them distinct).
+				rp.url, rp.frag = other.url, other.frag
+			}
+		}
+	}
 	i := 0
 	ns := 0
 	for i < len(w.repos) {
@@ -249,13 +275,13 @@ func vfsGenWorld(t testing.TB, r *vfRand, o vfsGenOpts, tag string) *vfsWorld {
 			if err != nil {
 				t.Fatal(err)
 			}
-			byName := map[string]vfsPart{}
+			byName := map[string]vfsPart{} // keyed by Source (names may be shared between tenants)
 			for _, p := range parts {
-				byName[p.repo.name] = p
+				byName["/src/"+p.repo.marker] = p
 			}
 			var ordered []vfsPart
 			for _, e := range rl.Repos {
-				ordered = append(ordered, byName[e.Repository.Name])
+				ordered = append(ordered, byName[e.Repository.Source])
 			}
 			if len(ordered) != len(parts) {
 				t.Fatalf("compound shard lists %d repos, want %d", len(ordered), len(parts))
@@ -283,7 +309,10 @@ func vfsGenWorld(t testing.TB, r *vfRand, o vfsGenOpts, tag string) *vfsWorld {
 	}
 	for _, rp := range w.repos {
 		g := uint64(rp.gi)
-		w.ids[rp.name], w.ids[rp.url], w.ids[rp.frag] = 100+g, 300+g, 500+g
+		if _, ok := w.ids[rp.name]; !ok {
+			w.ids[rp.name] = 100 + g // same name, same identifier
+		}
+		w.ids[rp.url], w.ids[rp.frag] = 300+g, 500+g
 		for k, s := range rp.subs {
 			w.ids[s.name], w.ids[s.url], w.ids[s.frag] = 2000+g*4+uint64(k), 3000+g*4+uint64(k), 4000+g*4+uint64(k)
 		}
@@ -454,7 +483,7 @@ func vfsSetAtom(r *vfRand, repos []*vfsRepo, branchNames []string) vfsQ {
 		}
 		return vfsQ{&query.RepoIDs{Repos: bm}, func(rp *vfsRepo, _ *vfsDoc) bool { return bm.Contains(rp.id) }, fmt.Sprint("repoids:", l), "repoids", "(CIds " + cNList(l64) + ")"}
 	case 2:
-		pat := r.Pick([]string{"t0-", "t1-", "t2-", pick.marker, "-r", "nomatch"})
+		pat := r.Pick([]string{"t0-", "t1-", "t2-", pick.marker, "-r", "nomatch", "shared", pick.name})
 		re := regexp.MustCompile(regexp.QuoteMeta(pat))
 		return vfsQ{&query.Repo{Regexp: re}, func(rp *vfsRepo, _ *vfsDoc) bool { return strings.Contains(rp.name, pat) }, "repo:" + pat, "repo",
 			vfsNamesTerm(repos, func(rp *vfsRepo) bool { return strings.Contains(rp.name, pat) })}
